@@ -308,6 +308,66 @@ def judge(cfg, acc):
                 bad("reservations_range", "chip %r: reservation outside the "
                     "core range: %r" % (xy, cover))
                 return
+        edited_description(si, live, w, h, bad)
+
+
+def edited_description(si, live, w, h, bad):
+    """The description is a dictionary the caller may edit (remove a chip
+    that must not be used, put it back, replace an entry): every later query
+    and every machine model built later describe the dictionary as it is
+    then."""
+    from rig.place_and_route.utils import build_machine
+    from rig.place_and_route import Cores
+    from rig.links import Links
+
+    def agree(stage):
+        try:
+            m = build_machine(si)
+            dead = set(si.dead_chips())
+            chips = set(si.chips())
+        except Exception as e:
+            bad("exception", "%s: %s: %s" % (stage, type(e).__name__, e),
+                exc=type(e).__name__)
+            return False
+        allc = set((x, y) for x in range(w) for y in range(h))
+        if chips != set(si) or dead != allc - set(si):
+            bad("description_stale", "%s: chips() gives %r, dead_chips() "
+                "gives %r, the description holds %r"
+                % (stage, sorted(chips), sorted(dead), sorted(si)))
+            return False
+        if set(m) != set(si):
+            bad("machine_stale", "%s: Machine has chips %r, the description "
+                "holds %r" % (stage, sorted(m), sorted(si)))
+            return False
+        for xy in si:
+            if m[xy][Cores] != si[xy].num_cores:
+                bad("machine_stale", "%s: Machine chip %r has %d cores, the "
+                    "description says %d" % (stage, xy, m[xy][Cores],
+                                             si[xy].num_cores))
+                return False
+            for l in Links:
+                if ((xy[0], xy[1], l) in m) != (l in si[xy].working_links):
+                    bad("machine_stale", "%s: link %r of %r" % (stage, l, xy))
+                    return False
+        return True
+    victims = sorted(xy for xy in live if xy != (0, 0))
+    if not victims:
+        return
+    v = victims[-1]
+    old = si[v]
+    del si[v]
+    if not agree("after removing chip %r from the description" % (v,)):
+        return
+    si[v] = old._replace(num_cores=max(1, old.num_cores - 2),
+                         core_states=list(old.core_states)[
+                             :max(1, old.num_cores - 2)],
+                         working_links=set(list(old.working_links)[:1]))
+    if not agree("after putting chip %r back with fewer cores and links"
+                 % (v,)):
+        return
+    if len(victims) > 1:
+        del si[victims[0]]
+        agree("after also removing chip %r" % (victims[0],))
 
 
 def part_dead_x_cores(params, tier, acc):
